@@ -163,6 +163,44 @@ func genIBC(repo string) (string, []string, error) {
 	})
 	fmt.Fprintf(&b, "/-- message types IBCMessagesDecorator looks at -/\ndef anteHandled : List String := %s\n", ibcStrList(handled))
 	fmt.Fprintf(&b, "/-- does it look inside wrapper messages? -/\ndef anteHandlesNested : Bool := %v\n", recurses)
+	// ---- checkedMsgsTravelWithIBCOnly: called by AnteHandle before its loop; which message types trigger it, which type URL prefix is allowed
+	mixedFirst := false
+	if len(fn.Body.List) > 1 {
+		for _, st := range fn.Body.List {
+			if _, isRange := st.(*ast.RangeStmt); isRange {
+				break
+			}
+			ast.Inspect(st, func(n ast.Node) bool {
+				if c, ok := n.(*ast.CallExpr); ok && ibcExprText(c.Fun) == "checkedMsgsTravelWithIBCOnly" {
+					mixedFirst = true
+				}
+				return true
+			})
+		}
+	}
+	var mixedTypes, mixedLits []string
+	if mf, ok := lc.funcs["checkedMsgsTravelWithIBCOnly"]; ok {
+		ast.Inspect(mf.Body, func(n ast.Node) bool {
+			switch n := n.(type) {
+			case *ast.TypeSwitchStmt:
+				for _, c := range n.Body.List {
+					for _, t := range c.(*ast.CaseClause).List {
+						mixedTypes = append(mixedTypes, ibcExprText(t))
+					}
+				}
+			case *ast.CallExpr:
+				if ibcExprText(n.Fun) == "strings.HasPrefix" && len(n.Args) == 2 {
+					if lit, ok := n.Args[1].(*ast.BasicLit); ok {
+						mixedLits = append(mixedLits, strings.Trim(lit.Value, "\""))
+					}
+				}
+			}
+			return true
+		})
+	}
+	fmt.Fprintf(&b, "/-- AnteHandle calls checkedMsgsTravelWithIBCOnly before it looks at any message -/\ndef anteRefusesMixedFirst : Bool := %v\n", mixedFirst)
+	fmt.Fprintf(&b, "/-- the message types that must travel with ibc core messages only -/\ndef mixedCheckedTypes : List String := %s\n", ibcStrList(mixedTypes))
+	fmt.Fprintf(&b, "/-- the type URL prefixes a companion message may have -/\ndef mixedAllowedPrefixes : List String := %s\n", ibcStrList(mixedLits))
 
 	// ---- IsCanonicalClientParamsValid
 	pr, err := loadFiles(filepath.Join(repo, "x/lightclient/types/params.go"))
